@@ -11,18 +11,20 @@
           (hn : the first n periods lie inside 0001..9999) : (iter r n).1 = Spec.RRule.occ a n
 
   with `Supported` = the negation of the known defect classes D-C01a/c/d/e/f.  What is proved of it
-  here is `iter_eq_spec_daily_partial` and `iter_eq_spec_yearly_monthly_partial`: FREQ = DAILY,
-  MONTHLY or YEARLY with any INTERVAL ≥ 1, BYMONTH, BYMONTHDAY, BYYEARDAY, plain BYDAY (any BYDAY for
-  DAILY), BYHOUR, BYMINUTE, BYSECOND, the defaults taken from the start, COUNT, UNTIL.  Missing:
-  WEEKLY (truncated first week) and the three sub-daily frequencies (the model skips empty periods,
-  so the refinement is not period-by-period), the three computed masks (BYWEEKNO, nth BYDAY,
-  BYEASTER) and BYSETPOS.  Everything else below — including
+  here is `iter_eq_spec_daily_partial`, `iter_eq_spec_weekly_partial` and
+  `iter_eq_spec_yearly_monthly_partial`: the four calendar frequencies DAILY, WEEKLY, MONTHLY, YEARLY
+  with any INTERVAL ≥ 1, BYMONTH, BYMONTHDAY, BYYEARDAY, plain BYDAY (any BYDAY for DAILY / WEEKLY,
+  where nth members are demoted), BYHOUR, BYMINUTE, BYSECOND, the defaults taken from the start,
+  COUNT, UNTIL (for WEEKLY: UNTIL not before the start).  Missing: the three sub-daily frequencies
+  (the model skips empty periods, so the refinement is not period-by-period), the three computed
+  masks (BYWEEKNO, nth BYDAY, BYEASTER) and BYSETPOS.  Everything else below — including
   `iter_strictMono` for all seven frequencies — is proved for ALL rules / all argument sets, with no
   `Supported` hypothesis (so also inside the known-defect classes).
 -/
 import DateutilVerif.Proofs.RRuleDaily
 import DateutilVerif.Proofs.RRuleMonoAll
 import DateutilVerif.Proofs.RRuleYM
+import DateutilVerif.Proofs.RRuleWeekly
 
 namespace C01
 open RRule Cal RRule.Tables
@@ -247,6 +249,16 @@ theorem iter_eq_spec_yearly_monthly_partial (a : Args) (r : Rule) (ya : YMArgs a
     (iter r n).1 = Spec.RRule.occ a n :=
   iter_eq_spec_ym ya h n hy hm
 
+/-- **`iter_eq_spec`, proved portion, WEEKLY**: INTERVAL ≥ 1, week start 0..6, valid start, UNTIL (if
+    any) not before the start, any BYMONTH / BYMONTHDAY (members ≠ 0) / BYYEARDAY / BYDAY — or none, in
+    which case the weekday is the start's —, any BYHOUR / BYMINUTE / BYSECOND, any COUNT: exactly the
+    specification's recurrence set (whole weeks from the week start; the model's first period starts
+    at the start's own day, and the days it leaves out lie before the start). -/
+theorem iter_eq_spec_weekly_partial (a : Args) (r : Rule) (wa : WeeklyArgs a) (h : construct a = .ok r)
+    (n : Nat) (hn : W0 a + 7 * (n * a.interval) + 7 ≤ maxOrdinal + 1) :
+    (iter r n).1 = Spec.RRule.occ a n :=
+  iter_eq_spec_weekly wa h n hn
+
 /-! ### non-vacuity and the known-finding witnesses reproduced by the model -/
 
 def dt (y m d : Int) (hh : Int := 0) (mm : Int := 0) (ss : Int := 0) : DT := { y, m, d, hh, mm, ss, us := 0 }
@@ -260,7 +272,12 @@ def dates (x : Py.R Rule) (n : Nat) : List (Int × Int × Int) :=
 -- a DailyArgs instance: every 3rd day, Fridays the 13th … (hypotheses of iter_eq_spec_daily_partial are satisfiable)
 example : DailyArgs { freq := 3, dtstart := dt 2024 2 28 9 30, interval := 3, bymonth := some [2, 3],
                       byweekday := some [(4, 0), (5, 0)], byhour := some [8, 20], count := some 4 } :=
-  ⟨rfl, by decide, by decide, rfl, rfl, rfl, by intro x hx; simp at hx⟩
+  ⟨⟨Or.inr rfl, by decide, by decide, rfl, rfl, rfl, by intro x hx; simp at hx⟩, rfl⟩
+-- a WeeklyArgs instance: every 2nd week on Tuesday and Thursday, weeks starting on Sunday
+example : WeeklyArgs { freq := 2, dtstart := dt 2024 2 28 9 30, interval := 2, wkst := some 6,
+                       byweekday := some [(1, 0), (3, 0)], count := some 5 } :=
+  ⟨⟨Or.inl rfl, by decide, by decide, rfl, rfl, rfl, by intro x hx; simp at hx⟩, rfl, by decide,
+   by intro u hu; simp at hu⟩
 -- a YMArgs instance: the 31st of every 2nd month from 2024-01-31 (months without a 31st are skipped, never coerced)
 example : YMArgs { freq := 1, dtstart := dt 2024 1 31 8, interval := 2, count := some 3 } :=
   ⟨Or.inr rfl, by decide, by decide, rfl, rfl, rfl, by intro x hx; simp at hx, by intro w hw; simp at hw⟩
